@@ -36,6 +36,24 @@ def case(g, tier, ci):
                 o["SR"] = enc(r.choice([2.4, 2.5, 7.3, 1.7]))
     ops += [{"op": "el.new", "id": "e"}, {"op": "el.addBP", "id": "e", "ch": 1, "bp": "b"},
             {"op": "el.getArrays", "id": "e", "time": True}, {"op": "el.getArrays", "id": "e", "time": False}]
+    if r.random() < 0.2:
+        # the element was queried (SR/points/duration are cached), then its channel is replaced by the same
+        # blueprint at another sample rate: forging must use the new blueprint's rate
+        ops += [{"op": r.choice(["el.SR", "el.points", "el.duration"]), "id": "e"},
+                {"op": "bp.copy", "id": "b", "to": "bx"}, {"op": "bp.setSR", "id": "bx", "SR": enc(info["SR"] * r.choice([10, 2]))},
+                {"op": "el.addBP", "id": "e", "ch": 1, "bp": "bx"}, {"op": "el.getArrays", "id": "e", "time": True, "_pair2": True},
+                {"op": "el.points", "id": "e"}, {"op": "el.addBP", "id": "e", "ch": 1, "bp": "b"}]
+    if any(o["fn"] == "waituntil" for o in ins) and r.random() < 0.6:
+        # forge, edit a segment of the SAME element, forge again: the stored blueprint's waituntil must still adapt
+        from props.c20 import seg_table
+        tbl = seg_table([o for o in ops if o.get("id") == "b"])
+        firstwait = next(i for i, (_, f) in enumerate(tbl) if f == "waituntil")
+        before = [(n, f) for n, f in tbl[:firstwait] if f != "waituntil"]
+        if before:
+            nm = r.choice(before)[0]
+            ops += [{"op": "el.changeDur", "id": "e", "ch": 1, "name": nm, "dur": enc(r.randint(2, 6) / info["SR"]), "all": False},
+                    {"op": "el.getArrays", "id": "e", "time": True, "_pair2": True}, {"op": "el.points", "id": "e"},
+                    {"op": "el.addBP", "id": "e", "ch": 1, "bp": "b"}]
     # a different history producing the same blueprint
     ops.append({"op": "bp.new", "id": "h"})
     for o in reversed(ins):
